@@ -51,12 +51,34 @@ def method_calls(fi: FunctionInfo, attr: str) -> List[ast.Call]:
 
 
 def facts(ctx: Ctx, fi: FunctionInfo, node: ast.AST) -> List[Tuple[ast.expr, bool]]:
-    return guards_of_expr(ctx.cfg(fi), fi, node)
+    """Guard facts at *node*: CFG test edges that dominate it, enclosing conditional expressions / boolean operators,
+    and - for a guard that is a local bound once to an expression - that expression too."""
+    out = list(guards_of_expr(ctx.cfg(fi), fi, node))
+    # enclosing IfExp / short-circuit operands inside the statement
+    child, par = node, parent(fi, node)
+    while par is not None and not isinstance(par, ast.stmt):
+        if isinstance(par, ast.IfExp):
+            if child is par.body:
+                out.extend(facts_of(par.test, True))
+            elif child is par.orelse:
+                out.extend(facts_of(par.test, False))
+        child, par = par, parent(fi, par)
+    extra = []
+    loc = locals_of(fi)
+    for a, pol in out:
+        if isinstance(a, ast.Name):
+            b = loc.single(a.id)
+            if b is not None and b.kind == "assign" and b.value is not None and not isinstance(b.value, ast.Constant):
+                extra.extend(facts_of(b.value, pol))
+    return out + [x for x in extra if not any(norm(x[0]) == norm(y[0]) and x[1] == y[1] for y in out)]
 
 
 def ev(ctx: Ctx, fi: FunctionInfo, e: ast.expr) -> Any:
-    """Constant value of an expression inside *fi* (module/class constants, literals)."""
-    return ctx.p.eval_const(fi.module, e)
+    """Constant value of an expression inside *fi* (module/class constants, literals; single-assignment locals are inlined)."""
+    try:
+        return ctx.p.eval_const(fi.module, e)
+    except NotConst:
+        return ctx.p.eval_const(fi.module, inline(e, fi))
 
 
 def try_ev(ctx: Ctx, fi: FunctionInfo, e: ast.expr, default: Any = None) -> Any:
